@@ -597,3 +597,38 @@ def contracts():
     c = _c14.edit_constant_contract()
     c.prop = "C12"
     return _c12_base_ec() + [c]
+
+
+SHARED_REPLAY = '''import sys, os, itertools
+sys.path.insert(0, os.environ.get('PYVC_REPO', '/repo'))
+import param
+bad = []
+def layer(default):
+    class Layer(param.Parameterized):
+        cfg = param.Dict(default=dict(default), instantiate=True)
+        tags = param.List(default=list(default), constant=True)
+    return Layer
+def other(default):
+    class Layer(param.Parameterized):                          # same __name__, another qualified name
+        cfg = param.Dict(default=dict(default), instantiate=True)
+        tags = param.List(default=list(default), constant=True)
+    return Layer
+for A, B in ((layer({'kind': 'audio'}), layer({'kind': 'video'})), (layer({'kind': 'audio'}), other({'kind': 'video'}))):
+  with param.shared_parameters():
+    a1, a2, b1 = A(), A(), B()
+  if True:
+    if a1.cfg is not a2.cfg:
+        bad.append('shared_parameters: two instances of ONE class do not share the instantiated default')
+    if b1.cfg is a1.cfg or b1.cfg != {'kind': 'video'}:
+        bad.append('shared_parameters: an instance of another class of the same name got cfg %r (identical object: %r)' % (b1.cfg, b1.cfg is a1.cfg))
+    if b1.tags is a1.tags or b1.tags != ['kind']:
+        bad.append('shared_parameters: an instance of another class of the same name got tags %r' % (b1.tags,))
+    a1.cfg['edited'] = True
+    if 'edited' in b1.cfg or 'edited' in B().cfg or 'edited' in A().cfg:
+        bad.append('shared_parameters: an in-place edit through one instance shows up on an unrelated class / on later instances')
+if bad:
+    print('REPRODUCED: ' + bad[0]); sys.exit(1)
+print('NOT-REPRODUCED'); sys.exit(0)
+'''
+
+PROBES = PROBES + [("shared_parameters shares per class, not per class name", SHARED_REPLAY)]
